@@ -200,14 +200,14 @@ var templates = []tmpl{
 	{"/p {/p load exec 1} def p", []string{"execstackoverflow"}},
 	{"{1 dict begin} loop", []string{"dictstackoverflow"}},
 	{"{userdict begin} loop", []string{"dictstackoverflow"}},
-	{"0 1 100 {pop currentdict begin} for", []string{"dictstackoverflow"}},
+	{"0 1 10000000 {pop currentdict begin} for", []string{"dictstackoverflow"}},
 	{"/a {1 dict begin a} def a", []string{"dictstackoverflow"}},
 	{"{1} loop", []string{"stackoverflow"}},
-	{"0 1 1000000 {} for", []string{"stackoverflow"}},
+	{"0 1 100000000 {} for", []string{"stackoverflow"}},
 	{"1 {dup} loop", []string{"stackoverflow"}},
 	{"mark {dup} loop", []string{"stackoverflow"}},
 	{"[ {1 2 3} loop", []string{"stackoverflow"}},
-	{"100000 {(x)} repeat", []string{"stackoverflow"}},
+	{"100000000 {(x)} repeat", []string{"stackoverflow"}},
 	{"/a {count a} def a", []string{"stackoverflow"}},
 	{"errordict /stackunderflow {pop} put pop", []string{"stackunderflow"}},
 	{"errordict /undefined {nosuchname} put nosuchname", []string{"undefined"}},
@@ -217,15 +217,15 @@ var templates = []tmpl{
 	{"65537 array", []string{"limitcheck"}},
 	{"2147483648 string", []string{"limitcheck"}},
 	{"9223372036854775807 dict", []string{"limitcheck"}},
-	{"65536 array 65536 string 65536 dict pop pop pop", []string{""}},
+	{"65535 array 65535 string 65535 dict pop pop pop", []string{""}},
 	{"4294967296 array", []string{"limitcheck"}},
 	{"{65536 array} loop", []string{"stackoverflow"}},
 	// tokens of a procedure body that is never closed, or is very long, pile
 	// up on the operand stack while it is collected
-	{"{ " + strings.Repeat("0 ", 5000), []string{"stackoverflow"}},
-	{"{ " + strings.Repeat("{ 1 ", 3000), []string{"stackoverflow"}},
-	{"{ " + strings.Repeat("(s) /n 2.5 ", 2000) + "} pop", []string{"stackoverflow"}},
-	{"1 2 { " + strings.Repeat("dup ", 700) + "} exec", []string{"stackoverflow"}},
+	{"{ " + strings.Repeat("0 ", 70000), []string{"stackoverflow", "limitcheck"}},
+	{"{ " + strings.Repeat("{ 1 ", 40000), []string{"stackoverflow", "limitcheck", "execstackoverflow"}},
+	{"{ " + strings.Repeat("(s) /n 2.5 ", 25000) + "} pop", []string{"stackoverflow", "limitcheck"}},
+	{"1 2 { " + strings.Repeat("dup ", 60000) + "} exec", []string{"stackoverflow"}},
 }
 
 func deepExec(n int) string {
@@ -246,7 +246,7 @@ var eexecBodies = []string{
 	"{userdict begin} loop",
 	"{1 dict begin} loop",
 	"/a {1 dict begin a} def a",
-	"0 1 100 {pop currentdict begin} for",
+	"0 1 10000000 {pop currentdict begin} for",
 }
 
 func instance(t *rapid.T) limitCase {
@@ -314,14 +314,13 @@ func judge(c limitCase, o isolate.Outcome) string {
 	if !ok {
 		return fmt.Sprintf("outcome %q, want one of %q\nprogram: %s", errName, c.Expect, c.Text)
 	}
-	if stack > 2*500+4 {
+	// "cut off instead of growing without bound": the bounds are far above
+	// the library's present limits (500 / 20) so that other finite limits
+	// pass; without a limit these programs reach them within the time limit
+	if stack > 1<<20 {
 		return fmt.Sprintf("operand stack grew to %d entries\nprogram: %s", stack, c.Text)
 	}
-	limit := 20
-	if strings.Contains(c.Text, "eexec") {
-		limit = 21 // the section's own systemdict entry
-	}
-	if dict > limit {
+	if dict > 1<<16 {
 		return fmt.Sprintf("dictionary stack grew to %d entries\nprogram: %s", dict, c.Text)
 	}
 	return ""
@@ -339,7 +338,7 @@ func nameRecursionBug(rec *ev.Rec) bool {
 func TestP2Limits(t *testing.T) {
 	rec := ev.New("C11", "limits")
 	defer rec.Finish(t)
-	rec.Rule("recursion and growth templates run with MaxOps = 0 in a child process (a Go stack overflow or a hang is the failure mode): self-call in non-tail position directly and through exec, if, ifelse, repeat, forall (array, string), for, loop; mutual recursion over 2 and 3 names; a procedure applying itself; begin in loops and in recursion, also inside an eexec section entered at dictionary-stack depth 2..21 (the section adds one entry of its own, so <= 21 there); loops that push (loop, for, repeat, dup, count, inside an open array); error handlers in errordict that fail themselves or loop; exec chains 95-130 deep; array/string/dict requests of 65536, 65537, 2^31, 2^32, maxint - each wrapped 0-3 times in exec / if / ifelse / repeat / begin / padding. Oracle: the run ends with the PostScript error the template determines (execstackoverflow, stackoverflow, dictstackoverflow, limitcheck ...), operand stack <= 1004 and dictionary stack <= 20 entries. Non-trivial: template nested >= 2 deep (>= 1 wrapper); distinct by program text.")
+	rec.Rule("recursion and growth templates run with MaxOps = 0 in a child process (a Go stack overflow or a hang is the failure mode): self-call in non-tail position directly and through exec, if, ifelse, repeat, forall (array, string), for, loop; mutual recursion over 2 and 3 names; a procedure applying itself; begin in loops and in recursion, also inside an eexec section entered at dictionary-stack depth 2..21 (the section adds one entry of its own); loops that push (loop, for, repeat, dup, count, inside an open array); error handlers in errordict that fail themselves or loop; exec chains 95-130 deep; array/string/dict requests of 65535 (must succeed), 65537, 2^31, 2^32, maxint - each wrapped 0-3 times in exec / if / ifelse / repeat / begin / padding. Oracle: the run ends with the PostScript error the template determines (execstackoverflow, stackoverflow, dictstackoverflow, limitcheck ...), operand stack <= 2^20 and dictionary stack <= 2^16 entries (bounds far above the present limits of 500 / 20, which the property does not fix). Non-trivial: template nested >= 2 deep (>= 1 wrapper); distinct by program text.")
 	bug := nameRecursionBug(rec)
 	var cases []limitCase
 	var raws [][]byte
